@@ -132,3 +132,46 @@ contract(
     ensures_exc={"terminal-returned-before-raising": 'len(log("return_terminal")) == 1'},
     from_property="terminal ownership ... unchanged (pipelines.py _return_terminal on the raise path)",
 )
+
+
+# ---- single-owner pipe ends: each descriptor is closed at most once, and is forgotten BEFORE it is closed ---------------------
+PI = "xonsh/procs/pipes.py::"
+FD = Union(NoneT, Int)
+CHAN = Obj("PipeChannel", _read_fd=FD, _write_fd=FD, _lock=Opaque("lock"))
+PIPE_EXT = {"os.close": Ext(raises=["OSError"], event="close-fd", log=0, log_type=FD, note="closes a descriptor; EBADF etc. are swallowed by the callers")}
+for _fn, _fld, _other in (("close_writer", "_write_fd", "_read_fd"), ("close_reader", "_read_fd", "_write_fd")):
+    contract(
+        PI + "PipeChannel." + _fn, "C09", params=dict(self=CHAN), externals=PIPE_EXT, modifies=["self"],
+        ensures={"the-end-is-forgotten": "self.%s is None" % _fld,
+                 "closed-exactly-once-if-it-was-open-and-never-otherwise": "implies(old(self.%s) is not None, len(log('close-fd')) == 1 and log('close-fd')[0] == old(self.%s)) and "
+                                                                           "implies(old(self.%s) is None, len(log('close-fd')) == 0)" % (_fld, _fld, _fld),
+                 "the-other-end-is-untouched": "self.%s == old(self.%s)" % (_other, _other)},
+        emits=["close-fd"],
+        from_property="holds no additional open file descriptors ... repeating any command any number of times cannot exhaust resources "
+                      "(idempotent single-owner fd close: a second close closes nothing, so a recycled descriptor number is never closed by mistake)",
+    )
+contract(
+    PI + "PipeChannel.close", "C09", params=dict(self=CHAN), externals=PIPE_EXT, modifies=["self"],
+    ensures={"both-ends-forgotten": "self._read_fd is None and self._write_fd is None",
+             "each-open-end-closed-exactly-once-writer-first":
+                 "len(log('close-fd')) == (1 if old(self._write_fd) is not None else 0) + (1 if old(self._read_fd) is not None else 0) and "
+                 "implies(old(self._write_fd) is not None, log('close-fd')[0] == old(self._write_fd)) and "
+                 "implies(old(self._read_fd) is not None, log('close-fd')[len(log('close-fd')) - 1] == old(self._read_fd))"},
+    emits=["close-fd"],
+    from_property="idempotent single-owner fd close (pipes.py PipeChannel.close*)",
+)
+
+CHANREC = ObjRec("PipeChannel", ident=Int)
+SPECC = Obj("SubprocSpec", _stdin=HS, _stdout=HS, _stderr=HS, captured_stdout=HS, captured_stderr=HS, pipe_channels=List(CHANREC))
+contract(
+    "xonsh/procs/specs.py::SubprocSpec.close", "C09", params=dict(self=SPECC),
+    externals={"safe_close": Ext(event="safe-close", log=0, log_type=HS, note="closes a file object if it is one and still open (never raises)"),
+               "PipeChannel.close": Ext(event="close-channel", log="recv", log_type=CHANREC, note="PipeChannel.close (its own contract): both ends, idempotent")},
+    modifies=["self.pipe_channels"],
+    loops={"for#1": dict(invariant={"closed-so-far-in-order": "log('close-channel') == self.pipe_channels[:_i]"}, havoc_only=[])},
+    ensures={"every-handle-of-the-stage-is-released": "log('safe-close') == [old(self._stdin), old(self._stdout), old(self._stderr), old(self.captured_stdout), old(self.captured_stderr)]",
+             "every-channel-is-closed-once-in-order": "log('close-channel') == old(self.pipe_channels)",
+             "and-forgotten-so-a-second-close-does-nothing": "len(self.pipe_channels) == 0"},
+    emits=["safe-close", "close-channel"],
+    from_property="close everything on every exit path (specs.py SubprocSpec.close; idempotent)",
+)
